@@ -1560,6 +1560,16 @@ pub fn c03(a: &Analysis, r: &Analysis) -> Vec<Violation> {
     for s in &a.stalls {
         out.push(v("C03", "C03/stall-unread", format!("quiescent at {} with {}", s.0, s.1)));
     }
+    // bytes the client has already read count as well: a complete packet sitting in its buffer
+    // must be handled without an unrelated event - the final sweep (a poll without a wake-up)
+    // of either execution must find nothing to do in the context task
+    for (which, x) in [("chunked", a), ("one-read-per-packet", r)] {
+        // (a pending `ReadGate` step is the harness's own doing: the gate is taken by whoever
+        // polls the reader next)
+        if let Some(sp) = x.sweep_progress.iter().find(|sp| sp.1 == TaskRef::Ctx && !sp.2.starts_with("ReadGated")) {
+            out.push(v("C03", "C03/lost-wakeup/context", format!("{which} execution: the context made progress only when polled without a wake-up at {}: {}", sp.0, sp.2)));
+        }
+    }
     for (c, conn) in a.conns.iter().enumerate() {
         let closed_result = |o: &Option<(usize, Result<(), ErrDigest>)>| matches!(o, Some((_, Err(e))) if e.variant == "SocketClosed");
         let connect_closed = matches!(&conn.connect_returned, Some((_, ConnectOutcome::Err(e))) if e.variant == "SocketClosed");
